@@ -585,6 +585,15 @@ func (e *Exec) arith(st *State, node ast.Node, v Term, t types.Type) Term {
 		return v
 	case "wrap":
 		return e.Ctx.Define("w", e.wrap(v, t))
+	default:
+		// "ideal": signed arithmetic is treated as mathematical (disclosed assumption); unsigned arithmetic is not -
+		// a mathematical difference can be negative while every unsigned value is assumed non-negative, so it keeps
+		// its exact modular semantics
+		if b, ok := t.Underlying().(*types.Basic); ok && b.Info()&types.IsUnsigned != 0 {
+			if _, _, ok := intRange(t); ok {
+				return e.Ctx.Define("w", e.wrap(v, t))
+			}
+		}
 	}
 	return v
 }
